@@ -1701,15 +1701,11 @@ impl<T: TypeConfig> RaftRoleState for LeaderState<T> {
                 .calculate_majority_matched_index(
                     self.current_term(),
                     self.commit_index(),
-                    self.match_index
+                    self.cluster_metadata
+                        .replication_targets
                         .iter()
-                        .filter(|(id, _)| {
-                            self.cluster_metadata.replication_targets.iter().any(|n| {
-                                n.id == **id
-                                    && n.role != d_engine_proto::common::NodeRole::Learner as i32
-                            })
-                        })
-                        .map(|(_, idx)| *idx)
+                        .filter(|n| n.role != d_engine_proto::common::NodeRole::Learner as i32)
+                        .map(|n| self.match_index.get(&n.id).copied().unwrap_or(0))
                         .collect(),
                 )
                 .is_some();
@@ -2992,14 +2988,13 @@ impl<T: TypeConfig> LeaderState<T> {
         let replication_targets = &self.cluster_metadata.replication_targets;
         let learner_role = d_engine_proto::common::NodeRole::Learner as i32;
 
-        // Only voter peers (non-Learner) contribute to the commit quorum.
-        let matched_ids: Vec<u64> = self
-            .match_index
+        // Only voter peers (non-Learner) contribute to the commit quorum, and every voter peer
+        // contributes: one that has not acknowledged anything yet counts as match index 0.
+        // (Iterating `match_index` alone would shrink the quorum to the peers that already ACKed.)
+        let matched_ids: Vec<u64> = replication_targets
             .iter()
-            .filter(|(id, _)| {
-                replication_targets.iter().any(|n| n.id == **id && n.role != learner_role)
-            })
-            .map(|(_, idx)| *idx)
+            .filter(|n| n.role != learner_role)
+            .map(|n| self.match_index.get(&n.id).copied().unwrap_or(0))
             .collect();
 
         let new_commit_index =
